@@ -78,7 +78,14 @@ pub fn run(ctx: &mut Ctx) {
     let npairs = ctx.n(6000, 120_000);
     for i in 0..npairs {
         let a = rng.pick(&pool).clone();
-        let b = match rng.below(4) { 0 => a.to_ascii_uppercase(), 1 => mixed(&a, &mut rng), 2 => a.to_ascii_lowercase(), _ => rng.pick(&pool).clone() };
+        let b = match rng.below(5) { 0 => a.to_ascii_uppercase(), 1 => mixed(&a, &mut rng), 2 => a.to_ascii_lowercase(),
+            // one character replaced by its partner under a bit trick a hand-rolled fold might use (bit 5, bit 6, +-32, off-by-one
+            // range ends): '[' / '{', '^' / '~', '@' / '`', '_' / DEL, digits / control characters, 'z' / 'Z' ... — equal ONLY if
+            // the two are the same ASCII letter in different case
+            3 if !a.is_empty() => { let cs: Vec<char> = a.chars().collect(); let k = rng.usize_below(cs.len()); let c = cs[k];
+                let alt = if c.is_ascii() { let x = c as u8; let y = match rng.below(4) { 0 => x ^ 0x20, 1 => x ^ 0x40, 2 => x.wrapping_add(32) & 0x7f, _ => x.wrapping_sub(32) & 0x7f }; y as char } else { c };
+                let mut t = cs.clone(); t[k] = alt; t.into_iter().collect() }
+            _ => rng.pick(&pool).clone() };
         let op = format!("name.rel {} {}", hexd(a.as_bytes()), hexd(b.as_bytes()));
         let o = ex(&mut log, &mut im, &op);
         let (x, y) = (VarName::new(&a), VarName::new(&b));
